@@ -253,6 +253,31 @@ func c15PointerCases() (n int, key, detail string) {
 		}
 	}
 
+	// exported functions that take field elements: SSWU must not touch u, Secp256Polynomial must not touch x
+	us := []*big.Int{big.NewInt(0), big.NewInt(1), big.NewInt(2), new(big.Int).Sub(ref.P, big.NewInt(1)), new(big.Int).Lsh(big.NewInt(1), 200), ref.Gx}
+	if sq := ref.Fp.Sqrt(ref.Fp.Neg(ref.Fp.Inv0(ref.SSWUZ))); sq != nil {
+		us = append(us, sq, ref.Fp.Neg(sq))
+	}
+
+	for _, u := range us {
+		fu := feVal(u)
+		before := fu.E
+		secp256k1.SSWU(fu)
+		n++
+
+		if fu.E != before {
+			return n, "SSWU/argument-changed", fmt.Sprintf("u=%x", u)
+		}
+
+		fx, fy := feVal(u), feVal(big.NewInt(3))
+		secp256k1.Secp256Polynomial(fy, fx)
+		n++
+
+		if fx.E != before {
+			return n, "Secp256Polynomial/argument-changed", fmt.Sprintf("x=%x", u)
+		}
+	}
+
 	vals := []*big.Int{big.NewInt(0), big.NewInt(1), big.NewInt(2), new(big.Int).Sub(ref.N, big.NewInt(1)), new(big.Int).Rsh(ref.N, 1), new(big.Int).Lsh(big.NewInt(1), 200)}
 
 	for _, a := range vals {
@@ -352,6 +377,10 @@ func exportedAPI() ([]string, error) {
 						if id, ok := t.X.(*ast.Ident); ok && !results && (id.Name == "Element" || id.Name == "Scalar") {
 							relevant = true
 						}
+
+						if sel, ok := t.X.(*ast.SelectorExpr); ok && !results && sel.Sel.Name == "Element" {
+							relevant = true // *field.Element
+						}
 					}
 				}
 			}
@@ -371,8 +400,10 @@ func exportedAPI() ([]string, error) {
 }
 
 var c15Covered = map[string]bool{
-	"HashToGroup": true, "EncodeToGroup": true, "HashToScalar": true, "Order": true,
-	"Element.Add": true, "Element.Subtract": true, "Element.Set": true, "Element.Multiply": true, "Element.Equal": true,
+	"HashToGroup": true, "EncodeToGroup": true, "HashToScalar": true, "Order": true, "SSWU": true, "Secp256Polynomial": true,
+	// IsogenySecp256k13iso maps its argument in place and returns it (documented; it is the receiver in all but name)
+	"IsogenySecp256k13iso": true,
+	"Element.Add":          true, "Element.Subtract": true, "Element.Set": true, "Element.Multiply": true, "Element.Equal": true,
 	"Element.Decode": true, "Element.DecodeCompressed": true, "Element.DecodeUncompressed": true, "Element.UnmarshalBinary": true,
 	"Element.Encode": true, "Element.EncodeUncompressed": true, "Element.XCoordinate": true, "Element.MarshalBinary": true,
 	"Scalar.Add": true, "Scalar.Subtract": true, "Scalar.Multiply": true, "Scalar.Pow": true, "Scalar.Set": true,
